@@ -11,62 +11,59 @@ open BHS BHS.Chain
 
 theorem atoiChars_nil : atoiChars [] = none := rfl
 
-/-- an accepted string has a non-empty all-digit part after the optional sign -/
-theorem atoiChars_some_shape {s : List Char} {n : Int} (h : atoiChars s = some n) :
-    s ≠ [] ∧ ∃ ds : List Char, ds ≠ [] ∧ ds.all isDigit = true ∧ (s = ds ∨ s = '+' :: ds ∨ s = '-' :: ds) := by
-  unfold atoiChars at h
-  simp only at h
+theorem atoiDigits_some_shape {neg : Bool} {ds : List Char} {n : Int} (h : atoiDigits neg ds = some n) :
+    ds ≠ [] ∧ ds.all isDigit = true := by
+  unfold atoiDigits at h
   split at h
   · cases h
   · split at h
     · cases h
     · rename_i hne hall
-      refine ⟨?_, ?_⟩
-      · intro e; subst e; simp at hne
-      · refine ⟨_, ?_, ?_, ?_⟩
-        · intro e; rw [e] at hne; simp at hne
-        · simpa using hall
-        · split <;> simp
+      exact ⟨by intro e; subst e; simp at hne, by simpa using hall⟩
 
-/-- the result fits Go's `int` (int64) -/
-theorem atoiChars_range {s : List Char} {n : Int} (h : atoiChars s = some n) :
-    -9223372036854775808 ≤ n ∧ n < 9223372036854775808 := by
-  unfold atoiChars at h
-  simp only at h
+theorem atoiDigits_range {neg : Bool} {ds : List Char} {n : Int} (h : atoiDigits neg ds = some n) :
+    -9223372036854775808 ≤ n ∧ n < 9223372036854775808 ∧ (neg = false → 0 ≤ n) := by
+  unfold atoiDigits at h
   split at h
   · cases h
   · split at h
     · cases h
     · split at h
       · split at h
-        · simp only [Option.some.injEq] at h; omega
+        · simp only [Option.some.injEq] at h; subst h; rename_i hn _; simp [hn]; omega
         · cases h
       · split at h
         · simp only [Option.some.injEq] at h; omega
         · cases h
+
+/-- an accepted string is an optional sign followed by a non-empty all-digit part -/
+theorem atoiChars_some_shape {s : List Char} {n : Int} (h : atoiChars s = some n) :
+    ∃ ds : List Char, ds ≠ [] ∧ ds.all isDigit = true ∧ (s = ds ∨ s = '+' :: ds ∨ s = '-' :: ds) := by
+  unfold atoiChars at h
+  split at h
+  · exact ⟨_, (atoiDigits_some_shape h).1, (atoiDigits_some_shape h).2, Or.inr (Or.inl rfl)⟩
+  · exact ⟨_, (atoiDigits_some_shape h).1, (atoiDigits_some_shape h).2, Or.inr (Or.inr rfl)⟩
+  · exact ⟨_, (atoiDigits_some_shape h).1, (atoiDigits_some_shape h).2, Or.inl rfl⟩
+
+/-- the result fits Go's `int` (int64) -/
+theorem atoiChars_range {s : List Char} {n : Int} (h : atoiChars s = some n) :
+    -9223372036854775808 ≤ n ∧ n < 9223372036854775808 := by
+  unfold atoiChars at h
+  split at h <;> exact ⟨(atoiDigits_range h).1, (atoiDigits_range h).2.1⟩
 
 theorem atoi_range {s : String} {n : Int} (h : atoi s = some n) :
     -9223372036854775808 ≤ n ∧ n < 9223372036854775808 := atoiChars_range h
 
 theorem atoi_empty : atoi "" = none := by decide
 
-/-- a value without a sign is never negative -/
+/-- a value without a leading minus sign is never negative -/
 theorem atoiChars_nonneg_of_no_minus {s : List Char} {n : Int} (h : atoiChars s = some n)
     (hs : ∀ r, s ≠ '-' :: r) : 0 ≤ n := by
   unfold atoiChars at h
-  simp only at h
   split at h
-  · cases h
-  · split at h
-    · cases h
-    · split at h
-      · rename_i hneg
-        split at hneg
-        · rename_i r; exact absurd rfl (hs r)
-        · cases hneg
-      · split at h
-        · simp only [Option.some.injEq] at h; omega
-        · cases h
+  · exact (atoiDigits_range h).2.2 rfl
+  · rename_i r; exact absurd rfl (hs r)
+  · exact (atoiDigits_range h).2.2 rfl
 
 theorem digitsVal_append (ds : List Char) (c : Char) : digitsVal (ds ++ [c]) = digitsVal ds * 10 + (c.toNat - 48) := by
   simp [digitsVal, List.foldl_append]
@@ -165,11 +162,13 @@ theorem commonAncestor_panic_iff (s : Store H) (hashes : List H) :
   · rintro rfl
     simp [commonAncestor, isPanic]
 
+omit [DecidableEq H] in
 theorem foldl_min_le_init (l : List (Row H)) (m : Nat) : l.foldl (fun m r => min m r.height) m ≤ m := by
   induction l generalizing m with
   | nil => exact Nat.le_refl _
   | cons a l ih => exact Nat.le_trans (ih _) (Nat.min_le_left _ _)
 
+omit [DecidableEq H] in
 theorem foldl_min_le_mem (l : List (Row H)) (m : Nat) (r : Row H) (hr : r ∈ l) :
     l.foldl (fun m r => min m r.height) m ≤ r.height := by
   induction l generalizing m with
